@@ -81,8 +81,10 @@ def prog_task(task):
     import torch
 
     torch.set_num_threads(1)
-    states, seed = task
+    states, seed = task[:2]
     atoms = make_atoms(seed)
+    if len(task) > 2:  # deep programs use two atoms: which two rotates with the seed
+        atoms = {1: atoms[1 + task[2] % 3], 2: atoms[1 + (task[2] + 1) % 3]}
     g = torch.Generator().manual_seed(seed + 3)
     x = torch.randn(3, 3, generator=g, dtype=torch.float64)
     c = torch.randn(3, 2, generator=g, dtype=torch.float64)
@@ -113,6 +115,9 @@ def prog_task(task):
                 out["fails"].append({"kind": "program", "prog": show(prog), "clause": "outputs", "dir": dname, "detail": "%s differs from the parts chained as %s (max diff %.3g)" % (dname, [(int(k), str(d)) for k, d in den], float((ry - y).abs().max())), "seed": seed})
             elif rl.shape != lad.shape or not torch.allclose(rl, lad, rtol=1e-10, atol=1e-10):
                 out["fails"].append({"kind": "program", "prog": show(prog), "clause": "logabsdet", "dir": dname, "detail": "%s logabsdet %s is not the sum over the parts %s" % (dname, rl.tolist(), lad.tolist()), "seed": seed})
+    if len(task) > 2:
+        for f in out["fails"]:
+            f["rot"] = task[2]
     return out
 
 
@@ -217,13 +222,15 @@ def main(run, replay=None):
     )
     thorough = run.tier == "thorough"
     co_const = {"NumAtoms": 3, "Depth": 2, "MaxParts": 3 if thorough else 2}
-    ms_const = {"MaxRank": 3, "MaxSize": 6 if thorough else 4, "MaxStages": 3}
+    deep_const = {"NumAtoms": 2, "Depth": 3, "MaxParts": 2}
+    ms_const = {"MaxRank": 3, "MaxSize": 6 if thorough else 5, "MaxStages": 3}
     if replay:
         c = replay["case"]
         if c["kind"] == "program":
-            res = T.run_tlc("Compose", T.cfg(constants={"NumAtoms": 3, "Depth": 2, "MaxParts": 3}), dump=True, coverage=False, workers=4)
+            deep = "rot" in c
+            res = T.run_tlc("Compose", T.cfg(constants=deep_const if deep else {"NumAtoms": 3, "Depth": 2, "MaxParts": 3}), dump=True, coverage=False, workers=4)
             sts = [s for s in parse_dump(res.dump) if show(s["prog"]) == c["prog"]]
-            out = prog_task((sts, c["seed"]))
+            out = prog_task((sts, c["seed"], c["rot"]) if deep else (sts, c["seed"]))
         else:
             res = T.run_tlc("Multiscale", T.cfg(constants={"MaxRank": 3, "MaxSize": max(4, max(c["shape"])), "MaxStages": 3}), dump=True, coverage=False, workers=4)
             sts = [s for s in parse_dump(res.dump) if [int(v) for v in s["cfg"]["shape"]] == c["shape"] and int(s["cfg"]["d"]) == c["split_dim"] and int(s["cfg"]["n"]) == c["stages"]]
@@ -239,6 +246,26 @@ def main(run, replay=None):
     rnd = random.Random(run.seed)
     if not thorough and len(progs) > 400:
         progs = rnd.sample(progs, 400)
+    # nesting depth 3 over two atoms: every nesting skeleton (the term with its atoms erased) is replayed
+    res3 = T.run_tlc("Compose", T.cfg(constants=deep_const, invariants=CO_INVS), dump=True, name="compose_deep", workers=8)
+    run.model_must_hold(res3, "Compose depth 3")
+    run.add_tlc(res3, "Compose %s" % deep_const)
+    by_skel = {}
+    for blk in re.split(r"^State \d+:\s*$", open(res3.dump).read(), flags=re.M):
+        mm = re.search(r"/\\ prog = (.*?)(?=^/\\ |\Z)", blk, flags=re.M | re.S)
+        if mm:
+            by_skel.setdefault(re.sub(r"k\|->\d+", "k", re.sub(r"\s+", "", mm.group(1))), []).append(blk)
+    per = 10**9 if thorough else 2
+    deep_blocks = []
+    for k in sorted(by_skel):
+        lst = by_skel[k]
+        deep_blocks += lst if len(lst) <= per else rnd.sample(lst, per)
+    from vcore.tlaval import parse_state
+
+    deep = [parse_state(b) for b in deep_blocks]
+    run.extra["depth3_programs_total"] = res3.distinct
+    run.extra["depth3_skeletons"] = len(by_skel)
+    run.extra["depth3_programs_replayed"] = len(deep)
     res2 = T.run_tlc("Multiscale", T.cfg(constants=ms_const, invariants=MS_INVS), dump=True, name="multiscale", workers=8)
     run.model_must_hold(res2, "Multiscale")
     run.add_tlc(res2, "Multiscale %s" % ms_const)
@@ -247,12 +274,15 @@ def main(run, replay=None):
     for out in pmap(prog_task, [(progs[i::nproc], run.seed + s) for i in range(nproc) for s in ((0, 1) if thorough else (0,)) if progs[i::nproc]], nproc):
         run.evaluations += out["n"]
         fails += out["fails"]
+    for out in pmap(prog_task, [(deep[i::nproc], run.seed, run.seed + i) for i in range(nproc) if deep[i::nproc]], nproc):
+        run.evaluations += out["n"]
+        fails += out["fails"]
     for out in pmap(ms_task, [(mss[i::nproc], run.seed) for i in range(nproc) if mss[i::nproc]], nproc):
         run.evaluations += out["n"]
         fails += out["fails"]
         for dmsg in out["drift"][:3]:
             run.note_drift(dmsg)
-    for s in progs:
+    for s in progs + deep:
         if str(s["prog"]["t"]) != "atom":
             run.nontrivial.add(show(s["prog"]))
     for s in mss:
@@ -271,6 +301,6 @@ def main(run, replay=None):
         run.violation({"kind": f["kind"], "clause": f["clause"]}, "%s %s: %s" % (f["kind"], f.get("prog") or (f.get("shape"), f.get("split_dim"), f.get("stages")), f["detail"]), {k: v for k, v in f.items() if k != "detail"})
     run.exhaustive = True
     run.assumptions = [
-        "programs: nesting depth 2, 3 atoms (pointwise affine, LU, context-dependent affine coupling), the same atom object may occur several times",
+        "programs: nesting depth 2 over 3 atoms (pointwise affine, LU, context-dependent affine coupling) and nesting depth 3 over 2 of them with at most 2 parts per composite (quick: two programs per nesting skeleton), the same atom object may occur several times",
         "multiscale: shapes of rank <= 3 with sizes <= MaxSize, 1-3 stages, every split dimension; per-stage affine maps with prime scales make routing and log-det terms decodable exactly",
     ]
